@@ -101,6 +101,13 @@ pub fn gen_history<S: Sut>(seed: u64, cfg: Cfg, sweep: Option<Sweep>) -> Outcome
             }
         };
     }
+    if !cfg.misuse && rng.chance(1, 5) {
+        // aged start: every actor has a long past (counters beyond u8 / u16 / u32 ranges) whose effects are gone
+        let base: Vec<(u8, u64)> = (0..cfg.nrep).map(|r| (actor_ids[r], [250u64, 65_530, (1 << 32) - 3, 1 << 40][rng.below(4)])).collect();
+        if S::aged(&base).is_some() {
+            go!(Act::Age { base });
+        }
+    }
     if cfg.policy == 254 {
         // ---- conflict template: a few writers on one hot path, a nested remover and an outer remover that
         // have each seen a random part of the history, optionally a late writer; 3-7 ops by up to n actors.
@@ -532,6 +539,7 @@ pub fn schedule_hash(script: &[Act]) -> u64 {
             Act::Reset { r, .. } => 5000 + *r as u64,
             Act::Shadow { r } => 6000 + *r as u64,
             Act::Law { kind, .. } => 7000 + *kind as u64,
+            Act::Age { base } => 8000 + base.iter().map(|(a, b)| *a as u64 * 31 + (*b % 1009)).sum::<u64>(),
         };
         h = mix(h, x);
     }
